@@ -82,6 +82,12 @@ def own (kv : KV) : String :=
     | "iter_fold" | "iter_rfold" =>
       let r := runFn c D (if op = "iter_fold" then Gen.Body.fold else Gen.Body.rfold) [] st
       OwnE.fmt (showR r.2.1) (OwnE.canonEvs r.1) []
+    | "fold" =>
+      if kv.getD "form" "o" ≠ "o" then "n/a" else
+      let cc : Ctx := { n := n, bad := none, fpan := fun i => callBad = some i, cl := fun _ => none }
+      let r := runFn cc Gen.Body.consumerDrop.body Gen.Body.gaFold []
+        ⟨⟨xs, 0, 0, 0, []⟩, ⟨[], 0, 0, 0, []⟩, false, 0, false, 0, false⟩
+      OwnE.fmt (match r.2.1 with | .ret _ => "ok" | .panicked => "panicked" | .ub => "ub") (OwnE.canonEvs (r.1.filter visible)) []
     | "generate" =>
       let f : Nat → Option Nat := fun i => if callBad = some i then none else some (1000 + i)
       let cc : Ctx := { n := n, bad := none, fpan := fun _ => false, cl := f }
